@@ -79,6 +79,8 @@ type Rec struct {
 	Faulted atomic.Bool
 	// UseAfterClose counts reads/writes on a file handle after its Close.
 	UseAfterClose atomic.Int64
+	// OnUseAfterClose, if set, is called (with the path) when that happens.
+	OnUseAfterClose func(path string)
 	// OpenFiles tracks currently open handles (id -> path).
 	openFiles map[int]string
 	maxOpen   int
@@ -488,6 +490,9 @@ func (f *File) ID() int { return f.id }
 func (f *File) checkClosed() {
 	if f.closed.Load() {
 		f.rec.UseAfterClose.Add(1)
+		if cb := f.rec.OnUseAfterClose; cb != nil {
+			cb(f.path)
+		}
 	}
 }
 
